@@ -317,3 +317,6 @@ MUTANTS = [
 VARIANTS = [
     Variant("rename-existing-var", "workflow.py", in_function("Workflow.register_static_tree", lambda s: s.replace("existing_path", "old_path"))),
 ]
+
+# a sketch of the F63/F64 repair (recording through state-selecting helpers): no rule of this property may alarm on it
+VARIANTS += [shared.REPAIR_SKETCH_F63]
